@@ -8,8 +8,8 @@ Definition S_ (s : string) : list byte := list_byte_of_string s.
 
 Fixpoint split_on (sep : byte) (l : list byte) (cur : list byte) : list (list byte) :=
   match l with
-  | [] => [rev cur]
-  | b :: t => if byte_eqb b sep then rev cur :: split_on sep t [] else split_on sep t (b :: cur)
+  | [] => [rev_append cur []]
+  | b :: t => if byte_eqb b sep then rev_append cur [] :: split_on sep t [] else split_on sep t (b :: cur)
   end.
 Definition tokens (line : list byte) : list tok :=
   filter (fun t => match t with [] => false | _ => true end) (split_on (n2b 32) line []).
